@@ -63,7 +63,7 @@ func (vfs *OrefaFS) Chdir(dir string) error {
 		return &fs.PathError{Op: op, Path: dir, Err: vfs.err.NoSuchFile}
 	}
 
-	if !nd.mode.IsDir() {
+	if !nd.isDir() {
 		err := vfs.err.NotADirectory
 		if vfs.OSType() == avfs.OsWindows {
 			err = avfs.ErrWinDirNameInvalid
@@ -369,7 +369,7 @@ func (vfs *OrefaFS) Link(oldname, newname string) error {
 		return &os.LinkError{Op: op, Old: oldname, New: newname, Err: vfs.err.NoSuchFile}
 	}
 
-	if !nParent.mode.IsDir() {
+	if !nParent.isDir() {
 		return &os.LinkError{Op: op, Old: oldname, New: newname, Err: vfs.err.NotADirectory}
 	}
 
@@ -383,7 +383,7 @@ func (vfs *OrefaFS) Link(oldname, newname string) error {
 	}
 
 	// Directories can't be linked: past this point oChild is a file and differs from nParent.
-	if oChild.mode.IsDir() {
+	if oChild.isDir() {
 		err := error(avfs.ErrOpNotPermitted)
 		if vfs.OSType() == avfs.OsWindows {
 			err = avfs.ErrWinAccessDenied
@@ -481,14 +481,14 @@ func (vfs *OrefaFS) Mkdir(name string, perm fs.FileMode) error {
 			parent, parentOk = vfs.nodes[dirName]
 		}
 
-		if parent.mode.IsDir() {
+		if parent.isDir() {
 			return &fs.PathError{Op: op, Path: name, Err: vfs.err.NoSuchDir}
 		}
 
 		return &fs.PathError{Op: op, Path: name, Err: vfs.err.NotADirectory}
 	}
 
-	if !parent.mode.IsDir() {
+	if !parent.isDir() {
 		return &fs.PathError{Op: op, Path: name, Err: vfs.err.NotADirectory}
 	}
 
@@ -515,7 +515,7 @@ func (vfs *OrefaFS) MkdirAll(path string, perm fs.FileMode) error {
 
 	child, childOk := vfs.nodes[absPath]
 	if childOk {
-		if child.mode.IsDir() {
+		if child.isDir() {
 			return nil
 		}
 
@@ -533,7 +533,7 @@ func (vfs *OrefaFS) MkdirAll(path string, perm fs.FileMode) error {
 		nd, ok := vfs.nodes[dirName]
 		if ok {
 			parent = nd
-			if !parent.mode.IsDir() {
+			if !parent.isDir() {
 				return &fs.PathError{Op: op, Path: dirName, Err: vfs.err.NotADirectory}
 			}
 
@@ -601,7 +601,7 @@ func (vfs *OrefaFS) OpenFile(name string, flag int, perm fs.FileMode) (avfs.File
 			return (*OrefaFile)(nil), &fs.PathError{Op: op, Path: name, Err: vfs.err.NoSuchDir}
 		}
 
-		if !parent.mode.IsDir() {
+		if !parent.isDir() {
 			return (*OrefaFile)(nil), &fs.PathError{Op: op, Path: name, Err: vfs.err.NotADirectory}
 		}
 
@@ -636,7 +636,7 @@ func (vfs *OrefaFS) OpenFile(name string, flag int, perm fs.FileMode) (avfs.File
 			return (*OrefaFile)(nil), &fs.PathError{Op: op, Path: name, Err: vfs.err.FileExists}
 		}
 
-		if child.mode.IsDir() {
+		if child.isDir() {
 			if om&avfs.OpenWrite != 0 {
 				return (*OrefaFile)(nil), &fs.PathError{Op: op, Path: name, Err: vfs.err.IsADirectory}
 			}
@@ -735,7 +735,7 @@ func (vfs *OrefaFS) Remove(name string) error {
 	child.mu.Lock()
 	defer child.mu.Unlock()
 
-	if child.mode.IsDir() && len(child.children) != 0 {
+	if child.isDir() && len(child.children) != 0 {
 		return &fs.PathError{Op: op, Path: name, Err: vfs.err.DirNotEmpty}
 	}
 
@@ -790,7 +790,7 @@ func (vfs *OrefaFS) removeAll(absPath string, rootNode *node) {
 	rootNode.mu.Lock()
 	defer rootNode.mu.Unlock()
 
-	if rootNode.mode.IsDir() {
+	if rootNode.isDir() {
 		for fileName, nd := range rootNode.children {
 			path := absPath + string(vfs.PathSeparator()) + fileName
 
@@ -834,7 +834,7 @@ func (vfs *OrefaFS) Rename(oldname, newname string) error {
 		return &os.LinkError{Op: op, Old: oldname, New: newname, Err: vfs.err.NoSuchFile}
 	}
 
-	if (oChild.mode.IsDir() && nChildOk) || (!oChild.mode.IsDir() && nChildOk && nChild.mode.IsDir()) {
+	if (oChild.isDir() && nChildOk) || (!oChild.isDir() && nChildOk && nChild.isDir()) {
 		err := vfs.err.FileExists
 		if vfs.OSType() == avfs.OsWindows {
 			err = avfs.ErrWinAccessDenied
@@ -843,12 +843,12 @@ func (vfs *OrefaFS) Rename(oldname, newname string) error {
 		return &os.LinkError{Op: op, Old: oldname, New: newname, Err: err}
 	}
 
-	if !nParent.mode.IsDir() {
+	if !nParent.isDir() {
 		return &os.LinkError{Op: op, Old: oldname, New: newname, Err: vfs.err.NotADirectory}
 	}
 
 	// A directory can't be moved below itself.
-	if oChild.mode.IsDir() && strings.HasPrefix(nAbsPath, oAbsPath+string(vfs.PathSeparator())) {
+	if oChild.isDir() && strings.HasPrefix(nAbsPath, oAbsPath+string(vfs.PathSeparator())) {
 		return &os.LinkError{Op: op, Old: oldname, New: newname, Err: vfs.err.InvalidArgument}
 	}
 
@@ -883,7 +883,7 @@ func (vfs *OrefaFS) Rename(oldname, newname string) error {
 	vfs.nodes[nAbsPath] = oChild
 	delete(vfs.nodes, oAbsPath)
 
-	if oChild.mode.IsDir() {
+	if oChild.isDir() {
 		oRoot := oAbsPath + string(vfs.PathSeparator())
 
 		for absPath, node := range vfs.nodes {
@@ -965,7 +965,7 @@ func (vfs *OrefaFS) stat(path, op string) (fs.FileInfo, error) {
 			return nil, &fs.PathError{Op: op, Path: path, Err: vfs.err.NoSuchDir}
 		}
 
-		if parent.mode.IsDir() {
+		if parent.isDir() {
 			return nil, &fs.PathError{Op: op, Path: path, Err: vfs.err.NoSuchFile}
 		}
 
@@ -1047,7 +1047,7 @@ func (vfs *OrefaFS) Truncate(name string, size int64) error {
 		return &fs.PathError{Op: op, Path: name, Err: vfs.err.NoSuchFile}
 	}
 
-	if child.mode.IsDir() {
+	if child.isDir() {
 		if vfs.OSType() == avfs.OsWindows {
 			op = "open"
 		}
